@@ -7,18 +7,18 @@ package utils
 import (
 	"bytes"
 	"encoding/json"
+	"io/ioutil"
 	"os"
+	"path/filepath"
 )
 
 // EncodeJSONFile 编码 JSON 文件
-func EncodeJSONFile(path string, obj interface{}) error {
-	f, err := os.OpenFile(path, os.O_CREATE|os.O_TRUNC|os.O_WRONLY, os.ModePerm)
-	if err != nil {
-		return err
-	}
-
-	defer f.Close()
-
+//
+// The file is replaced atomically: the new content is written to a temporary
+// file in the same directory, synced and closed, and then renamed over path.
+// If the process dies at any moment, path holds either the complete previous
+// content or the complete new content.
+func EncodeJSONFile(path string, obj interface{}) (err error) {
 	var formatted bytes.Buffer
 	body, err := json.Marshal(obj)
 	if err != nil {
@@ -29,12 +29,35 @@ func EncodeJSONFile(path string, obj interface{}) error {
 		return err
 	}
 
-	if _, err := f.Write(formatted.Bytes()); err != nil {
-		return err
-	}
-	if err := f.Sync(); err != nil {
-		return err
+	// keep the permissions of the file being replaced
+	mode := os.FileMode(0644)
+	if fi, err := os.Stat(path); err == nil {
+		mode = fi.Mode().Perm()
 	}
 
-	return nil
+	f, err := ioutil.TempFile(filepath.Dir(path), filepath.Base(path)+".tmp")
+	if err != nil {
+		return err
+	}
+	tmp := f.Name()
+	defer func() {
+		if err != nil {
+			f.Close()
+			os.Remove(tmp)
+		}
+	}()
+
+	if _, err = f.Write(formatted.Bytes()); err != nil {
+		return err
+	}
+	if err = f.Chmod(mode); err != nil {
+		return err
+	}
+	if err = f.Sync(); err != nil {
+		return err
+	}
+	if err = f.Close(); err != nil {
+		return err
+	}
+	return os.Rename(tmp, path)
 }
